@@ -174,7 +174,10 @@ type cdfDist interface {
 
 // gridCase evaluates F on the grid, the quadrature reference Q(x) = 1/2 + ∫_c^x pdf and the
 // inverse at F(x); the driver judges range, order, symmetry, |F-Q| and inverse∘CDF.
-func gridCase(kind, params string, d cdfDist, inv func(float64) float64, centre, scale float64, xs []float64, tag string) {
+// tbl(x) returns the argument at which the code evaluates its transcendental parameter for x and
+// the value there (t: the incomplete beta argument and I; normal: the erfc argument and erfc);
+// the float64 instance of the model recomputes the argument itself and looks the value up.
+func gridCase(kind, params string, d cdfDist, inv func(float64) float64, centre, scale float64, xs []float64, tag string, tbl func(float64) (float64, float64)) {
 	F := make([]float64, len(xs))
 	Q := make([]float64, len(xs))
 	P := make([]float64, len(xs))
@@ -200,8 +203,16 @@ func gridCase(kind, params string, d cdfDist, inv func(float64) float64, centre,
 			Q[i] = 0.5 - acc
 		}
 	})
-	hx.Printf("case %d kind=%s %s c=%s xs=%s F=%s Q=%s P=%s V=%s tag=%s\n", id, kind, params, fb(centre), fbList(xs), fbList(F), fbList(Q), fbList(P), fbList(V), tag)
+	A := make([]float64, len(xs))
+	B := make([]float64, len(xs))
+	guard(kind, func() {
+		for i, x := range xs {
+			A[i], B[i] = tbl(x)
+		}
+	})
+	hx.Printf("case %d kind=%s %s c=%s xs=%s F=%s Q=%s P=%s V=%s A=%s B=%s tag=%s\n", id, kind, params, fb(centre), fbList(xs), fbList(F), fbList(Q), fbList(P), fbList(V), fbList(A), fbList(B), tag)
 	if ok {
+		hx.Printf("obs %d F=%s\n", id, fbList(F))
 		hx.Printf("sobs %d range=ok mono=ok sym=ok quad=ok inv=ok\n", id)
 	}
 	id++
@@ -232,7 +243,10 @@ func distCases(r *hx.Rand) {
 	}
 	for _, nu := range nus {
 		d := stats.TDist{V: nu}
-		gridCase("tcdf", "nu="+fb(nu), d, stats.InvCDF(d), 0, 1, xGrid(r), "t+"+nuTag(nu))
+		gridCase("tcdf", "nu="+fb(nu), d, stats.InvCDF(d), 0, 1, xGrid(r), "t+"+nuTag(nu), func(x float64) (float64, float64) {
+			arg := nu / (nu + x*x)
+			return arg, stats.VerifC12BetaInc(arg, nu/2, 0.5)
+		})
 	}
 	for i := per(hx.N(40, 800)); i > 0; i-- {
 		mu, sigma := 0.0, 1.0
@@ -254,7 +268,10 @@ func distCases(r *hx.Rand) {
 		if mu != 0 || sigma != 1 {
 			tag = "normal+scaled"
 		}
-		gridCase("ncdf", "mu="+fb(mu)+" sigma="+fb(sigma), d, d.InvCDF, mu, sigma, xs, tag)
+		gridCase("ncdf", "mu="+fb(mu)+" sigma="+fb(sigma), d, d.InvCDF, mu, sigma, xs, tag, func(x float64) (float64, float64) {
+			z := -(x - mu) / (sigma * math.Sqrt2)
+			return z, math.Erfc(z)
+		})
 	}
 }
 
